@@ -9,3 +9,7 @@ pub assume_specification<T, E, U, F: FnOnce(T) -> Result<U, E>>[ Result::<T, E>:
     ensures r matches Err(e) ==> o == Err::<U, E>(e), r matches Ok(t) ==> f.ensures((t,), o);
 pub assume_specification<T, E>[ Result::<T, E>::unwrap_or ](r: Result<T, E>, d: T) -> (o: T)
     ensures o == (match r { Ok(t) => t, Err(_) => d });
+// Result::inspect_err (std documentation): calls f with a reference to the error, returns the result unchanged
+pub assume_specification<T, E, F: FnOnce(&E)>[ Result::<T, E>::inspect_err ](r: Result<T, E>, f: F) -> (o: Result<T, E>)
+    requires r matches Err(e) ==> f.requires((&e,)),
+    ensures o == r;
